@@ -88,6 +88,9 @@ def _body(mod, fn, params, mode):
 
     def run(V):
         _install_finding(V, mode)
+        from symx import rat
+
+        rat.OBLIGATIONS.clear()  # side conditions of the rational float model are per path: none may survive from a harness that did not consume its own
         post = f(V, **params)
         if mode.confirm is not None and isinstance(post, (list, tuple)):
             tagged = [c for c in post if isinstance(c, tuple) and isinstance(c[0], str) and ("[%s]" % mode.confirm) in c[0]]
